@@ -198,9 +198,14 @@ def _package_call(fr: Frame, fi, e, args, kwargs, guard, stmt):
     for k, v in kwargs.items():
         amap[k] = v
     has_loop = any(isinstance(n, (ast.For, ast.While)) for n in ast.walk(fi.node))
+    if has_loop and ev.summarise_loops and not any(isinstance(n, ast.While) for n in ast.walk(fi.node)):
+        has_loop = False            # `for` loops may be summarised exactly; checked below
     if (not has_loop) and fr.depth < ev.inline_depth and fi.qualname not in ev.no_inline:
         try:
+            n_log = len(ev.summary_log)
             res = ev.eval_function(fi, amap, fr.depth + 1)
+            if len(ev.summary_log) > n_log:
+                raise Unsupported(f"a loop of {fi.qualname} could not be summarised: {ev.summary_log[-1][1]}")
             ev.inlined.add(fi.qualname)
             # side effects of the callee on its parameters are side effects on the caller's arguments
             alias = {}
@@ -234,7 +239,8 @@ def _method_call(fr: Frame, e, f: ast.Attribute, args, kwargs, env, guard, stmt)
     if m in ("append", "extend", "insert", "remove", "sort", "reverse", "clear", "add", "update", "fill"):
         if isinstance(f.value, ast.Name) and f.value.id in env:
             cur = env[f.value.id]
-            if isinstance(cur, Vec) and cur.kind == "list" and fr.havoc_depth == 0 and guard.kind == "true":
+            if isinstance(cur, Vec) and cur.kind == "list" and fr.havoc_depth == 0 and (guard.kind == "true" or ev.summarise_loops):
+                # (with loop summaries on: env is the state on the live path, the branch merge re-introduces the condition)
                 if m == "append" and len(args) == 1:
                     env[f.value.id] = Vec(list(cur.items) + [args[0]], "list")
                 elif m == "extend" and len(args) == 1 and isinstance(args[0], Vec):
